@@ -139,6 +139,7 @@ def run(ctx: Context) -> None:
     rep.rule("C04.R3", "socket-opening calls are guarded by `inner connection is None` under the connection lock and followed by the store")
     rep.rule("C04.R4", "the establishment-failure flag is set only for faults inside the establishment region")
     rep.rule("C04.R5", "_max_connections is the constructor's max_connections (sys.maxsize when None)")
+    rep.rule("C04.R6", "a connection leaves the count (reports closed) only together with the close of its stream")
     for tree, N in trees(ctx):
         pool = N.cls("connection_pool", "AsyncConnectionPool")
         assign = N.func("connection_pool", "AsyncConnectionPool._assign_requests_to_connections")
@@ -168,6 +169,9 @@ def run(ctx: Context) -> None:
                f"`self._max_connections` <- {[ast.unparse(s.value) for s in stores]}")
         _one_stream(ctx, tree, N)
         _failure_flag(ctx, tree, N)
+        from .c06 import closed_store_paired
+
+        closed_store_paired(ctx, "C04.R6", tree, N)
 
 
 def _one_stream(ctx: Context, tree: str, N: Names) -> None:
